@@ -114,6 +114,21 @@ def one_export(t, m, nodes, attrs, start, ml, dname, opts, ctx):
             if again != exp_text:
                 why = "second export() of the same exporter differs"
     if why is None:
+        # an exporter constructed with other settings, used once, then re-configured through its public attributes
+        rex = JsonExporter(dictexporter=mk_dictexporter("reversed")[0], maxlevel=1, indent=7, sort_keys=True)
+        rex.export(nodes[0])
+        rex.dictexporter, rex.maxlevel, rex.kwargs = mk_dictexporter(dname)[0], ml, dict(opts)
+        for first in ("write", "export"):
+            buf = io.StringIO()
+            if first == "write":
+                rex.write(nodes[start], buf)
+            text = buf.getvalue() if first == "write" else rex.export(nodes[start])
+            t.c["reconfigured_exports"] += 1
+            if text != exp_text:
+                why = "%s() of an exporter re-configured through its public attributes differs from a fresh exporter's" % first
+                got = text
+                break
+    if why is None:
         want = ref_tree(m, attrs, start, 1, ml, aref, cref)
         for imp_name, importer in (("default", JsonImporter()), ("custom", JsonImporter(dictimporter=DictImporter(nodecls=c10._user())))):
             r1 = importer.import_(got)
@@ -248,7 +263,7 @@ def run(tier):
             items += [(s, a) for a in asg]
     t = core.Tally()
     core.run_pool([(MOD, "job", {"items": c, "pairs": True}) for c in core.chunks(items[::-1], core.NPROC * 6)] +
-                  [(MOD, "job", {"items": c, "pairs": False}) for c in core.chunks(items, core.NPROC * 2 + 1)], 0, into=t)   # second pass, other order
+                  [(MOD, "job", {"items": c, "pairs": False}) for c in core.chunks(items, core.NPROC * 2 + 1)] + [("mc.positional", "job", {"pid": "C11"})], 0, into=t)   # second pass, other order
     core.run_pool([(MOD, "job", {"items": c, "pairs": False}) for c in core.chunks(items[:40], core.NPROC)], 1, into=t)
     cov = {
         "states": t.c["states"], "transitions": t.c["evaluations"], "traces_validated_against_impl": t.c["evaluations"],
@@ -260,5 +275,5 @@ def run(tier):
                 "non-empty attributes or more than one node" % (npart, len(VALUES), nfull, len(OPTIONS)),
         "bounds": {"full_upto": nfull, "max_nodes": npart, "trees": len(items)},
     }
-    return {"tally": t, "coverage": cov, "guards": ("nontrivial", "imports", "config_pairs", "importer_reuse_checks", "import_input_variants"),
+    return {"tally": t, "coverage": cov, "guards": ("positional_calls", "reconfigured_exports", "nontrivial", "imports", "config_pairs", "importer_reuse_checks", "import_input_variants"),
             "assumptions": ["JSON value domain of %d dictionaries; NaN/Infinity are not JSON and excluded" % len(VALUES)]}
